@@ -728,12 +728,65 @@ def ChMedia(tid: str, dl: str, M: Dict[str, ChLabelVal], n: int) -> List[ChItem]
     return ChMedia(tid, dl, M, n - 1) + [([dl, tid, keys(M)[n - 1]], as_str(M[keys(M)[n - 1]]))]
 
 
+@spec
+def ChoiceEntries(name: str, idx: int, c: ChoiceTrK, dl: str) -> List[ChItem]:
+    """C08 for one choice: under its own text id `<list>-<index>`, the label entries then the media entries."""
+    return ((ChLabel(name + "-" + str(idx), some(c.label), len(keys(some(c.label)))) if isinstance(c.label, dict)
+             else ([([dl, name + "-" + str(idx), "long"], as_str(some(c.label)))]
+                   if c.label is not None and len(some(c.label)) > 0 else []))
+            + (ChMedia(name + "-" + str(idx), dl, some(c.media), len(keys(some(c.media)))) if c.media is not None else []))
+
+
+ItemsetTrK = Obj("Itemset", name=str, options=List[ChoiceTrK], requires_itext=bool)
+SurveyChK = Obj("Survey", name=str, default_language=str, choices=Opt[Dict[str, ItemsetTrK]])
+
+
+@spec
+def ChOpts(name: str, dl: str, opts: List[ChoiceTrK], n: int) -> List[ChItem]:
+    """The entries of the first n choices of one list, in sheet order, each under its own index."""
+    if n <= 0:
+        return []
+    return ChOpts(name, dl, opts, n - 1) + ChoiceEntries(name, n - 1, opts[n - 1], dl)
+
+
+@spec
+def ChLists(dl: str, C: Dict[str, ItemsetTrK], n: int) -> List[ChItem]:
+    """The entries of the first n choice lists: a list shown through itext contributes every choice, another list none."""
+    if n <= 0:
+        return []
+    if C[keys(C)[n - 1]].requires_itext:
+        return ChLists(dl, C, n - 1) + ChOpts(keys(C)[n - 1], dl, C[keys(C)[n - 1]].options, len(C[keys(C)[n - 1]].options))
+    return ChLists(dl, C, n - 1)
+
+
+@contract("Survey._setup_translations.<locals>.get_choices")
+def _() -> List[ChItem]:
+    properties("C08", "C07")
+    no_native("nested generator: exercised through the e2e oracle")
+    closure(self=SurveyChK)
+    # call-site fact (`if self.choices:` guards the only call; _setup_translations itself is not under contract: assumed)
+    requires(self.choices is not None)
+    # C08/C07: every choice of every list that is shown through itext contributes its entries under `<list name>-<its own
+    # index in the list>`, lists in sheet order, choices in sheet order — no choice skipped, none filed under another
+    # choice's index or another list's name
+    ensures(result == ChLists(self.default_language, some(self.choices), len(keys(some(self.choices)))))
+
+    @loop(0, index="i")
+    def _():
+        invariant(_yield == _yield_at_entry + ChLists(self.default_language, some(self.choices), i))
+
+    @loop(1, index="j")
+    def _():
+        invariant(_yield == _yield_at_entry + ChOpts(name, self.default_language, itemset.options, j))
+
+
 @contract("Survey._setup_translations.<locals>.get_choice_content")
 def _(name: str, idx: int, choice: ChoiceTrK) -> List[ChItem]:
     properties("C08", "C07")
     no_native("nested generator: exercised through the e2e oracle")
     closure(self=SurveyDL)
     merge_paths()
+    ensures(result == ChoiceEntries(name, idx, choice, self.default_language))
     tid = name + "-" + str(idx)
     lab = (ChLabel(tid, some(choice.label), len(keys(some(choice.label)))) if isinstance(choice.label, dict)
            else ([([self.default_language, tid, "long"], as_str(some(choice.label)))]
